@@ -84,7 +84,11 @@ def run_unit(u, tier, seed, canary):
     with open(path, "w") as fh:
         fh.write(text)
     rl = getattr(u, "rlimit", 30)
-    cmd, out, err, rc, wall = V.run_verus(path, rlimit=rl, timeout=getattr(u, "timeout", 900),
+    if canary:
+        # the canary run only has to show that no canary is PROVABLE: every assertion in it fails by design and costs the whole resource
+        # limit, so it runs with the default limit (a contradictory context proves a canary almost for free) and a longer backstop
+        rl = min(rl, 30)
+    cmd, out, err, rc, wall = V.run_verus(path, rlimit=rl, timeout=getattr(u, "timeout", 900) * (2 if canary else 1),
                                           multiple_errors=(200 if canary else 20),
                                           # the canary run (assertions that MUST fail) always uses z3's default seed: a failing proof explores
                                           # up to the resource limit per assertion and may take far longer under another seed
